@@ -190,8 +190,8 @@ LEVELS = {
     "C10": ("Proved over the cache model: the cache store holds only complete copies, Open serves the source's bytes, a successful open settles the entry, settled entries are never re-read and stay settled. "
             "Checked every run: access sequences cache vs source (bytes, stat, listings, re-read counts); model = implementation.",
             "Real parallelism of the path lock is exercised by C11's scheduler, not proved."),
-    "C11": ("Proved over the fill state machine: a partial copy is never served, an interrupted fill reports an error, a failed fill leaves nothing servable -- over every sequence of faults, a source that cannot be opened during a later call included. "
-            "Checked every run: failures injected at every source/store call, the same followed by a re-open with the source down (model = implementation), and two openers interleaved at every yield point.",
+    "C11": ("Proved over the fill state machine: a partial copy is never served, an interrupted fill reports an error, a failed fill leaves nothing servable -- over every sequence of faults, a source that cannot be opened during a later call included.  Proved over the interleaving model of concurrent openers of one name (any number of openers, every schedule, a failure possible at every step of every fill): at most one copy is in progress, every open that succeeds is complete, no partial copy is ever left unmarked, a settled copy stays, some opener can always move. "
+            "Checked every run: failures injected at every source/store call, the same followed by a re-open with the source down (model = implementation); 2..4 concurrent first opens with the copy paused at chunk boundaries and a failing fill while a second opener waits (Remove slow / Remove failing): simultaneous copies counted, and the store calls the real cache made are replayed through the interleaving model (model accepts = implementation follows the protocol).",
             "The path lock itself is Go's sync primitives (trusted)."),
     "C12": ("Proved: for every well-formed archive (distinct resolved names, no file above another entry) the unpacking algorithm builds exactly the logical tree -- each entry, each ancestor as a 0700 directory, nothing else -- in every entry order; names normalise to the root, a real-name path, or an escaping path; an entry whose parent escapes stops unpacking and creates nothing. "
             "Checked every run: both models = implementation on generated archives; unpacked tree vs logical tree on four destinations incl. os.FS, sizes across the 150 KiB threshold.",
